@@ -329,9 +329,21 @@ impl Lexer {
         cs_name_interner: &mut CsNameInterner,
     ) -> (token::CsName, State) {
         self.buffer.clear();
-        let first_raw_token = match self.raw_lexer.next(config) {
-            None => return (cs_name_interner.get_or_intern(""), State::NewLine),
-            Some(first_raw_token) => first_raw_token,
+        // A loop, not a recursion: when ^^ notation at the start of the name yields
+        // another superscript character, again and again, no stack frame is used per step.
+        let first_raw_token = loop {
+            let first_raw_token = match self.raw_lexer.next(config) {
+                None => return (cs_name_interner.get_or_intern(""), State::NewLine),
+                Some(first_raw_token) => first_raw_token,
+            };
+            if first_raw_token.code == CatCode::Superscript
+                && self
+                    .raw_lexer
+                    .maybe_apply_caret_notation(first_raw_token.char, true)
+            {
+                continue;
+            }
+            break first_raw_token;
         };
         match first_raw_token.code {
             CatCode::Letter => {
@@ -354,15 +366,6 @@ impl Lexer {
                         _ => break,
                     }
                 }
-            }
-            CatCode::Superscript => {
-                if self
-                    .raw_lexer
-                    .maybe_apply_caret_notation(first_raw_token.char, true)
-                {
-                    return self.read_control_sequence(config, cs_name_interner);
-                }
-                self.buffer.push(first_raw_token.char);
             }
             _ => {
                 self.buffer.push(first_raw_token.char);
